@@ -61,7 +61,7 @@ fn compare<T: Nums + Evaluate>(what: &str, res: &Piecewise<T>, src_ends: &[f64],
 
 fn pw_mul<T>(ty: String) -> PwCase
 where
-    T: Nums + Evaluate + Mul<f64, Output = T> + Copy,
+    T: Nums + Evaluate + Mul<f64, Output = T> + Copy + Send + Sync,
 {
     PwCase {
         ty, op: "Piecewise * s , Segment * s", positive_only: false, scalar: true,
@@ -77,7 +77,7 @@ where
 }
 fn pw_mul_assign<T>(ty: String) -> PwCase
 where
-    T: Nums + Evaluate + MulAssign<f64> + Copy,
+    T: Nums + Evaluate + MulAssign<f64> + Copy + Send + Sync,
 {
     PwCase {
         ty, op: "Piecewise *= s , Segment *= s , (&mut Segment) *= s", positive_only: false, scalar: true,
@@ -98,7 +98,7 @@ where
 }
 fn pw_neg<T>(ty: String) -> PwCase
 where
-    T: Nums + Evaluate + Neg<Output = T> + Copy,
+    T: Nums + Evaluate + Neg<Output = T> + Copy + Send + Sync,
 {
     PwCase {
         ty, op: "-Piecewise", positive_only: false, scalar: false,
@@ -112,7 +112,7 @@ where
 }
 fn pw_translate<T>(ty: String) -> PwCase
 where
-    T: Nums + Evaluate + Translate + Copy,
+    T: Nums + Evaluate + Translate + Copy + Send + Sync,
 {
     PwCase {
         ty, op: "Piecewise::translate , Segment::translate", positive_only: false, scalar: true,
@@ -175,7 +175,10 @@ pub fn check(thorough: bool, _seed: u64) -> Check {
         split: 1,
         body: Box::new(move |unit, cx| {
             let c = &cs3[unit];
-            let len = 41 + cx.choose(if thorough { 1040 } else { 480 });
+            // block / strip sizes depend on size_of::<Segment<T>>() = 8*(1+N): Poly0..Poly8 and IntOfLog<Poly8> cover every size that occurs
+            let full = !c.ty.contains('<') || c.ty == "IntOfLog<Poly8>";
+            let k = cx.choose(if full { (if thorough { 3260 } else { 1610 }) + 6 } else { 160 });
+            let len = if !full { 41 + k } else if k < 6 { [32768usize, 65536, 65537, 70003, 131074, 100001][k] } else { 41 + k - 6 };
             let ends: Vec<f64> = (0..len).map(|i| 0.5 + i as f64 * 0.25).collect();
             let s = if c.scalar { [-2.5, 1.0000000000000002][cx.choose(2)] } else { 0.0 };
             cx.nontrivial();
@@ -186,7 +189,7 @@ pub fn check(thorough: bool, _seed: u64) -> Check {
             (c.run)(&ends, s).map_err(|(what, d)| Fail::new(format!("{}: {}", c.ty, what), json!({"pieces": len, "ends": "0.5 + i/4", "scalar": fj(s), "observation": d})))
         }),
         classes: vec![],
-        bounds: json!({"cases": "every (piece type, operator group) case", "pieces": if thorough {"every number of pieces from 41 to 1080"} else {"every number of pieces from 41 to 520"}, "scalars": "-2.5 and succ(1)", "comparison": "structure (number of pieces, every end and every number of every piece on bits)"}),
+        bounds: json!({"cases": "every (piece type, operator group) case", "pieces": if thorough {"Poly0..Poly8, IntOfLog<Poly8> (every Segment size that occurs): every number of pieces from 41 to 3300, and 32768, 65536, 65537, 70003, 100001, 131074; other piece types 41..200"} else {"Poly0..Poly8, IntOfLog<Poly8> (every Segment size that occurs): every number of pieces from 41 to 1650, and 32768, 65536, 65537, 70003, 100001, 131074; other piece types 41..200"}, "scalars": "-2.5 and succ(1)", "comparison": "structure (number of pieces, every end and every number of every piece on bits)"}),
     };
     let ph = Phase {
         name: "segment-and-piecewise-operators",
